@@ -36,6 +36,7 @@ def run(ctx):
     if obs:
         import corr_repeated
         corr_repeated.grid(ctx, obs[0])   # exhaustive index/slice grid through the same observer (one driver batch)
+    session.run_churn(ctx, ctx.scale(100, 1500), ctx.scale(50, 80), ['frame'], observers=obs)   # small blocks: split/merge/redistribution underneath
     session.finish_observers(ctx, obs)
     slicegrid.run(ctx, ['frame'])
     import slotgrid
